@@ -37,7 +37,7 @@ def gen_family(rng, n_roots=(1, 3), n_cond=(2, 8), n_rdm=(1, 4)):
         ru = rng.sample([u for u in range(1, 90) if u not in used], nr)
         used.update(ru)
         spec = {'rdm_uids': ru, 'cond_uids': list(cond_uids), 'measure': measure,
-                'descriptors': {'session': rng.pick(['s1', 's2', 7])},
+                'descriptors': {'session': rng.pick(['s1', 's2', 's7'])},
                 'rdm_desc': {'grp': gen.gen_grouping(rng, nr, typ=rtyp),
                              'extra': {'values': ['x%d' % u for u in ru], 'container': rng.pick(['list', 'array'])}},
                 'pat_desc': pat_desc, 'nan_cells': []}
